@@ -308,7 +308,9 @@ AddPart(n, s, m) ==
           ELSE s1
 
 (* addVote *)
-AddVote(n, s, m) ==
+(* pk: the peer the message came from (HeightVoteSet.peerCatchupRounds is keyed by the delivering peer); the scheduler-driven
+   runs deliver a vote under its author's key *)
+AddVoteP(n, s, m, pk) ==
   IF m.h + 1 = s.h THEN
       \* straggler precommit for the previous height
       IF ~(s.st = NewHeight /\ m.ty = "pc") \/ s.lc.r < 0 THEN s
@@ -321,10 +323,10 @@ AddVote(n, s, m) ==
   ELSE IF m.h # s.h THEN s
   ELSE IF ~Member(s.h, m.by) THEN s                 \* not in the validator set of this height
   ELSE IF m.r \notin Rounds THEN s
-  ELSE IF m.r \notin s.rs /\ Cardinality(s.catch[m.by]) >= 2 THEN s     \* third unexpected round of this peer: dropped
+  ELSE IF m.r \notin s.rs /\ Cardinality(s.catch[pk]) >= 2 THEN s     \* third unexpected round of this peer: dropped
   ELSE LET h == s.h
            s0 == IF m.r \in s.rs THEN s
-                 ELSE [s EXCEPT !.rs = @ \cup {m.r}, !.catch[m.by] = @ \cup {m.r}] IN
+                 ELSE [s EXCEPT !.rs = @ \cup {m.r}, !.catch[pk] = @ \cup {m.r}] IN
     IF m.ty = "pv" THEN
       IF s.pv[m.r][m.by] # None                  \* duplicate, or conflicting vote (reported, not counted)
         THEN (IF s.pv[m.r][m.by] # m.v /\ s.pvc[m.r][m.by] # m.v /\ MajOf(s.h, s.pv[m.r]) = m.v
@@ -357,10 +359,13 @@ AddVote(n, s, m) ==
                 THEN EnterPrecommitWait(n, EnterPrecommit(n, EnterNewRound(n, s1, h, m.r), h, m.r), h, m.r)
               ELSE s1
 
-HandleMsg(n, s, m) ==
+AddVote(n, s, m) == AddVoteP(n, s, m, m.by)
+
+HandleMsgP(n, s, m, pk) ==
   IF m.t = "P" THEN SetProposal(n, s, m)
   ELSE IF m.t = "B" THEN AddPart(n, s, m)
-  ELSE AddVote(n, s, m)
+  ELSE AddVoteP(n, s, m, pk)
+HandleMsg(n, s, m) == HandleMsgP(n, s, m, IF m.t = "V" THEN m.by ELSE n)
 
 (* handleTimeout *)
 HandleTimeout(n, s, ti) ==
@@ -399,6 +404,16 @@ Peer(n, m) ==
   /\ m.h = node[n].h \/ (m.t = "V" /\ m.h + 1 = node[n].h)
   /\ Useful(n, m)
   /\ node' = [node EXCEPT ![n] = HandleMsg(n, Logged(node[n], <<"M", m>>), m)]
+  /\ act' = <<"Peer", n, m>>
+  /\ UNCHANGED <<net, byzUsed, crashes>>
+
+\* the same delivery, through peer pk (real reactors relay other validators' votes)
+PeerP(n, m, pk) ==
+  /\ Active(n)
+  /\ m \in net
+  /\ ~(m.t = "V" /\ m.by = n)
+  /\ m.h = node[n].h \/ (m.t = "V" /\ m.h + 1 = node[n].h)
+  /\ node' = [node EXCEPT ![n] = HandleMsgP(n, Logged(node[n], <<"M", m>>), m, pk)]
   /\ act' = <<"Peer", n, m>>
   /\ UNCHANGED <<net, byzUsed, crashes>>
 
